@@ -124,6 +124,25 @@ func c13Ctor(c *Check, P string, fn *ssa.Function) {
 
 func c13Middleware(c *Check, P string, m *MW) {
 	I := m.Inner
+	// the poison queue settles nothing itself: whether the consumed message is acked follows from the error it returns
+	// (nil only after the poison publish succeeded) — an Ack of its own, before the publish, cannot be taken back
+	if recv := outermost(I).Signature.Recv(); recv != nil {
+		T := NamedOf(recv.Type())
+		ns := 0
+		for _, fn := range c.P.SrcFuncs("message/router/middleware") {
+			o := outermost(fn)
+			if o.Signature.Recv() == nil || NamedOf(o.Signature.Recv().Type()) != T {
+				continue
+			}
+			for _, cl := range CallsIn(fn) {
+				if n := CalleeName(cl); n == nAck || n == nNack {
+					ns++
+					c.Report(false, P+".O1", "POISON-QUEUE-NEVER-SETTLES", fn, cl.Pos(), n, "the poison queue middleware calls neither Ack nor Nack: the router settles the message from the returned error, which is nil only after the poison publish succeeded")
+				}
+			}
+		}
+		c.Report(true, P+".O1", "POISON-SETTLE-CALLS-SCANNED", I, I.Pos(), "poison queue middleware", fmt.Sprintf("%d Ack/Nack calls in the poison queue's methods", ns))
+	}
 	if !c.Floor(P+".O4", "call of the wrapped handler", len(m.HCalls), 1) {
 		return
 	}
